@@ -15,6 +15,8 @@ ASSUMPTIONS = ['valid-but-incomplete verbatim groups (e.g. "38;5") are outside t
 
 CFG_RT = gen.Cfg(esc=False, odd=0.25, invalid=False, incomplete=False, max_ops=5)
 CFG_SIMP = gen.Cfg(esc=False, odd=0.3, invalid=True, incomplete=False, max_ops=5)
+# base texts that carry non-SGR control sequences (cursor / erase helpers): kept verbatim by the parser, so the round trip is well defined
+CFG_CSI = gen.Cfg(esc=False, odd=0.2, invalid=False, incomplete=False, max_ops=3, alphabet=['a', 'b', ' ', 'a', 'b', '\x1b[2K', '\x1b[20G', '\x1b[1;2H', 'm', '['], ansi_ctor=False, max_text=8)
 
 
 def nontrivial(per):
@@ -30,6 +32,14 @@ def nontrivial(per):
     return False
 
 
+import re as _re
+_CSI_NON_SGR = _re.compile('\x1b\\[[0-9;]*[A-LN-Za-ln-z]')
+
+
+def strip_csi(t):
+    return _CSI_NON_SGR.sub('', t)
+
+
 def eval_roundtrip(case):
     o = Outcome()
     try:
@@ -38,9 +48,13 @@ def eval_roundtrip(case):
         o.skipped = 'builder_invalid'
         return o
     t, per = v.base_str, per_char(v)
-    if '\x1b' in t or not wellformed(per):
+    if ('\x1b' in t and not case.get('csi')) or not wellformed(per) or '\x1b' in strip_csi(t):
         o.skipped = 'not-wellformed-or-esc'
         return o
+    for m_ in _CSI_NON_SGR.finditer(t):
+        if any(per[k] != per[m_.start()] for k in range(m_.start(), m_.end())):
+            o.skipped = 'style-change-inside-embedded-control-sequence'
+            return o
     sty = styles(per)
     r = str(v)
     for cls in (AnsiString, AnsiStr):
@@ -118,5 +132,7 @@ def eval_simplify(case):
 
 SUBS = [
     Sub('roundtrip', eval_roundtrip, strategy=lambda: st.fixed_dictionaries({'p': gen.progs(CFG_RT)}), quick=500, thorough=8000),
+    Sub('roundtrip_csi_text', eval_roundtrip, strategy=lambda: st.fixed_dictionaries({'p': gen.progs(CFG_CSI), 'csi': st.just(True)}), quick=300, thorough=5000,
+        rule='base texts containing non-SGR control sequences (erase / cursor), which parsing keeps verbatim'),
     Sub('simplify', eval_simplify, strategy=lambda: st.fixed_dictionaries({'p': gen.progs(CFG_SIMP)}), quick=500, thorough=8000),
 ]
